@@ -603,11 +603,11 @@ class C18(Prop):
     rule = ('(a) byte streams over {a, é (2 bytes), CR, LF, CRLF, empty, space, bc} cut into reads (every multi-cut of every '
             'stream of <=4 tokens enumerated, <=5 in thorough; random longer ones), client mode and server mode with 1-3 '
             'interleaved sockets and defaultdict-backed getBuffer/updateBuffer, reads settled one by one or batched; '
-            'non-trivial = a read ends in CR or the stream contains an empty line. '
+            'plus enumerated lines of 70 kB..1.1 MB arriving in 4 KiB reads; non-trivial = a read ends in CR or the stream contains an empty line. '
             '(b) every constructor of irc.commands and Message(command, *args, prefix=) applied to strings over '
             '{a, space, colon, CR, LF, NUL, é}: every string of length <=3 (thorough <=4) in every argument position '
             'of every constructor, all pairs of strings <=2 for two-argument constructors, random longer ones, str and '
-            'bytes arguments, serialised by bytes() or through IRC.request; non-trivial = some argument, prefix or '
+            'bytes arguments, prefix also as (nick, user, host) tuple, arguments/prefix also filled in after construction, serialised by bytes() or through IRC.request; non-trivial = some argument, prefix or '
             'command contains CR, LF or a colon. distinct = distinct spec hash')
     assumptions = (
         'cross-socket order of line events is not asserted, only the per-socket sequence',
